@@ -153,3 +153,14 @@ package util
 //@ func (ImportNames).IsExternal(i, t) (r)
 //@   requires t != nil
 //@   ensures {C08} r == (is(derefT(t), *types.Named) && pkgOfObj(namedObj(as(derefT(t), *types.Named))) != nil && has(i, pkgPath(pkgOfObj(namedObj(as(derefT(t), *types.Named))))))
+
+//@ spec stringMethod(t types.Type) types.Object =
+//@     lookupFM(box(as(derefT(t), *types.Named)), false, pkgOfObj(namedObj(as(derefT(t), *types.Named))), "String")
+//@ spec compliesStringer(t types.Type) bool =
+//@     is(derefT(t), *types.Named) && stringMethod(t) != nil && is(objType(stringMethod(t)), *types.Signature) &&
+//@     tupleLen(sigParams(as(objType(stringMethod(t)), *types.Signature))) == 0 &&
+//@     tupleLen(sigResults(as(objType(stringMethod(t)), *types.Signature))) == 1 &&
+//@     typeString(typeOfObj(tupleAt(sigResults(as(objType(stringMethod(t)), *types.Signature)), 0))) == "string"
+//@
+//@ func CompliesStringer(src) (r)
+//@   ensures {C04,C01} r == compliesStringer(src)
